@@ -159,8 +159,15 @@ def build_table(fresh=False):
     t0 = time.time()
     dumps, dstat = X.extract_all(fresh=fresh)
     t1 = time.time()
-    an = G.Analyzer(dumps)
-    rows = an.run()
+    import gc
+    was = gc.isenabled()
+    gc.disable()
+    try:
+        an = G.Analyzer(dumps)
+        rows = an.run()
+    finally:
+        if was:
+            gc.enable()
     t2 = time.time()
     problems = list(an.problems)
     for w in an.unexplained_sites:
@@ -262,12 +269,6 @@ def exempt_sets():
     ent = load_exempt()
     return dict(gate=set(e["key"] for e in ent if e.get("what") == "gate"), inc=set(e["key"] for e in ent if e.get("what") == "inc"), entries=ent)
 
-
-def translate(ctx, fresh=False):
-    table, flag_lits, syms, problems, info = build_table(fresh=fresh)
-    ex = exempt_sets()
-    ctx.write_gen("SeverityGuards", gen_lean(table, flag_lits, syms, ex))
-    return table, flag_lits, syms, problems, info, ex
 
 
 # =================================================================================================================
@@ -485,7 +486,7 @@ def materialise(ctx, batch):
 
 def run_batches(ctx, batches, optsets, workers=8):
     errors = []
-    jobs = [(b, o) for b in batches for o in optsets]
+    jobs = [(b, o) for b in batches for o in (getattr(b, "optsets", None) or optsets)]
 
     def one(job):
         b, (sevs, inc) = job
@@ -573,7 +574,7 @@ def table_cached(fresh=False):
     return r + (False,)
 
 
-def translate(ctx, fresh=False):       # noqa: F811  (final definition: cached table)
+def translate(ctx, fresh=False):
     table, flag_lits, syms, problems, info, hit = table_cached(fresh=fresh)
     info = dict(info, table_cache_hit=hit)
     ex = exempt_sets()
@@ -638,11 +639,44 @@ def sample_batches(rng, thorough):
 def snippet_batches(rng, thorough):
     sn = mined_snippets()
     if not thorough:
-        sn = rng.sample(sn, min(140, len(sn)))
-        per = 70
+        sn = rng.sample(sn, min(160, len(sn)))
+        per = 80
     else:
-        per = 150
+        sn = rng.sample(sn, min(5000, len(sn)))
+        per = 125
     return [Batch("snip%03d" % (i // per), [(s[0], s[2]) for s in sn[i:i + per]]) for i in range(0, len(sn), per)]
+
+
+TEST_OF = {"checkother": ["other", "incompletestatement", "charvar"], "checkclass": ["class", "constructors", "unusedprivfunc"],
+           "checkmemoryleak": ["memleak"], "checkleakautovar": ["leakautovar"], "checkunusedvar": ["unusedvar"], "check64bit": ["64bit"],
+           "checkunusedfunctions": ["unusedfunctions"]}
+
+
+def guided_batches(new_gate, new_inc):
+    """violation search for sites that lost their guard: every snippet mined from the test file(s) of the check's source file, under
+    the option sets that would expose the missing guard (everything but the row's severity / everything but --inconclusive)"""
+    out = []
+    want = {}
+    for r, inc in [(r, False) for r in new_gate] + [(r, True) for r in new_inc]:
+        base = os.path.basename(r["site"][0]).rsplit(".", 1)[0]
+        tests = TEST_OF.get(base, [base[5:]] if base.startswith("check") else [])
+        if inc:
+            o = (tuple(GATED), False)
+        else:
+            sev = r["ls"][1] if r["ls"][0] == 'c' else None
+            keep = [s for s in GATED if s != sev and not (s == "style" and sev in ("warning", "performance", "portability"))]
+            o = (tuple(keep), True)
+        for t in tests:
+            want.setdefault(t, set()).add(o)
+            want[t].add(((), True))
+    sn = mined_snippets()
+    for t, opts in sorted(want.items()):
+        sel = [s for s in sn if s[1] == t][:900]
+        for i in range(0, len(sel), 150):
+            b = Batch("guided_%s_%d" % (t, i // 150), [(s[0], s[2]) for s in sel[i:i + 150]])
+            b.optsets = sorted(opts)
+            out.append(b)
+    return out
 
 
 def witness_batches():
@@ -655,29 +689,29 @@ def witness_batches():
     return [b]
 
 
+def id_matches(pats, fid):
+    return any(p == fid or (p.endswith("*") and len(p) > 1 and fid.startswith(p[:-1])) for p in pats)
+
+
 def tie_check(ctx, res, table, observations):
     """every finding of the real binary whose id belongs to the table must be `possible` for a row of its severity / certainty"""
-    by_id, wild = {}, []
-    for r in table:
-        for i in r["site"][3]:
-            if i == "*":
-                wild.append(r)
-            else:
-                by_id.setdefault(i, []).append(r)
+    wild = [r for r in table if "*" in r["site"][3]]
     drv = ctx.driver("drv_c27")
     ops, meta = [], []
     outside = collections.Counter()
+    cache = {}
     for (fid, sev, finc, mask), n in sorted(observations.items()):
         cert = "inconclusive" if finc else "normal"
-        cands = [r for r in by_id.get(fid, [])]
-        kind = "exact"
+        if fid not in cache:
+            cache[fid] = [r for r in table if id_matches(r["site"][3], fid)]
+        cands = cache[fid]
+        kind = "id"
         if not cands:
-            cands = wild
-            kind = "wildcard"
-            if fid not in TABLE_ID_PREFIXES and not any(fid.startswith(p) for p in TABLE_ID_PREFIXES):
-                outside[fid] += n
-                continue
-        cands = [r for r in cands if r["cert"] == cert and (r["ls"][0] == 'sym' or r["ls"][1] == sev)]
+            # not an id of the check classes as far as the table knows: preprocessor / tokenizer / symbol database / cppcheck.cpp /
+            # library-configured ids (checkfunctions `<name>Called`): counted, decided by P_impl only
+            outside[fid] += n
+            continue
+        cands = [r for r in cands + wild if r["cert"] == cert and (r["ls"][0] == 'sym' or r["ls"][1] == sev)]
         meta.append(((fid, sev, cert, mask, kind, n), [r["idx"] for r in cands]))
         for r in cands:
             ops.append("P %d %d" % (r["idx"], mask))
@@ -692,20 +726,16 @@ def tie_check(ctx, res, table, observations):
         k += len(idxs)
         ok = any(a == "1" for a in answers)
         res.case("tie|%s|%s|%s|%d" % (fid, sev, cert, mask), sev in GATED or cert == "inconclusive",
-                 dict(tie="finding possible in table", finding="%s %s %s" % (fid, sev, cert), mask=mask, rows=idxs[:6], model=answers[:6]) if len(res.samples) < 6 else None)
+                 dict(tie="finding possible in table", finding="%s %s %s" % (fid, sev, cert), mask=mask, rows=idxs[:6], model="".join(answers[:6])) if len(res.samples) < 4 else None)
         if ok:
             res.traces_validated += 1
         else:
-            unexplained.append("%s %s %s under mask %d (%s rows %s)" % (fid, sev, cert, mask, kind, idxs[:8]))
+            unexplained.append("%s %s %s under mask %d (rows %s)" % (fid, sev, cert, mask, idxs[:8]))
     res.oblig("correspondence:findings-possible-in-table", not unexplained, "correspondence",
               "" if not unexplained else "%d observed findings are impossible according to the table (site missed or guard too strong):\n%s" %
               (len(unexplained), "\n".join(unexplained[:20])))
     res.extra["findings_outside_table"] = dict(outside)
-
-
-# dynamic ids built by string concatenation in the check classes (rows with ids = ['*'])
-TABLE_ID_PREFIXES = ("uninitMemberVar", "uninitDerivedMemberVar", "uninitStructMember", "nullPointer", "shadow", "unusedLabel", "duplicateExpression",
-                     "knownConditionTrueFalse", "accessMoved", "accessForwarded", "eraseIteratorOutOfBounds", "invalidTestForOverflow")
+    res.extra["tie_groups"] = len(meta)
 
 
 def run(ctx, res):
@@ -748,12 +778,17 @@ def run(ctx, res):
     # ---- corpus and the real binary -------------------------------------------------------------------------------------
     wb = witness_batches()
     batches = wb + sample_batches(rng, thorough) + cfg_batches(rng, thorough) + snippet_batches(rng, thorough)
+    guided = guided_batches(new_gate, new_inc)
+    res.extra["guided_search_files"] = sum(len(b.files) for b in guided)
+    batches += guided
     for b in batches:
         materialise(ctx, b)
     optsets = all_optsets(True) if thorough else quick_optsets(rng)
+    qo = quick_optsets(rng)
+    for b in batches:
+        b.optsets = getattr(b, "optsets", None) or (all_optsets(True) if b in wb else (qo if b.name.startswith("cfg_") else optsets))
     t1 = time.time()
-    errors = run_batches(ctx, wb, all_optsets(True), workers=8)
-    errors += run_batches(ctx, batches[len(wb):], optsets, workers=8)
+    errors = run_batches(ctx, batches, optsets, workers=8)
     res.extra["cli_s"] = round(time.time() - t1, 1)
     res.oblig("C:cli-runs-complete", not errors, "correspondence", "\n".join(errors[:10]))
     full = (tuple(GATED), True)
@@ -765,7 +800,7 @@ def run(ctx, res):
         for f in b.results.get(full, []):
             if f[1] in GATED or f[2]:
                 per_file_nt[f[4]] += 1
-        bopts = all_optsets(True) if b in wb else optsets
+        bopts = b.optsets
         for o in bopts:
             fs = b.results.get(o)
             if fs is None:
